@@ -30,6 +30,8 @@ import (
 	"github.com/bluenviron/gortsplib/v5/pkg/description"
 	"github.com/bluenviron/gortsplib/v5/pkg/format"
 	"github.com/bluenviron/gortsplib/v5/pkg/headers"
+	"github.com/bluenviron/gortsplib/v5/pkg/rtpreceiver"
+	"github.com/pion/rtcp"
 	"github.com/pion/rtp"
 
 	"verifharness/hx"
@@ -95,6 +97,7 @@ type setupEntry struct {
 type hop struct {
 	name    string
 	q       int
+	b       int // rtpreceiver reorder buffer size
 	medias  [][]fmtInfo // per media, per format
 	readers []*readerInfo
 	mu      sync.Mutex
@@ -241,6 +244,19 @@ func freeTCPPort() int {
 }
 
 var tlsCert *tls.Certificate
+
+// recvBufferSize is what rtpreceiver uses for its reorder buffer when nothing is configured (read from a
+// real Receiver at start-up, so that a changed default reaches the model).
+var recvBufferSize = 64
+
+func probeRecvBufferSize() {
+	rr := &rtpreceiver.Receiver{ClockRate: 90000, UnrealiableTransport: true, Period: time.Hour,
+		WritePacketRTCP: func(rtcp.Packet) {}}
+	if err := rr.Initialize(); err == nil {
+		recvBufferSize = rr.BufferSize
+		rr.Close()
+	}
+}
 
 func startServer(rng *hx.Rand, h *handler, q int, udp bool, tlsOn bool) (*gortsplib.Server, int, error) {
 	var lastErr error
@@ -820,6 +836,16 @@ func (hp *hop) oracle(sc *scenario) []failure {
 							wins[r][n-1].stopE < 0 && evPosWb[wr.idx] > wins[r][n-1].stopB {
 							cls = "tcp-reorder-push-after-close"
 						}
+						// Same root cause seen through UDP: the datagrams were sent in rotated order while a stop
+						// of this reader was in progress; after more than BufferSize late ones the receiver
+						// resets its position and hands the old packets on.
+						if !dup && !hp.readers[r].tcp {
+							for _, win := range wins[r] {
+								if win.stopB >= 0 && evPosWb[wr.idx] > win.stopB && (win.stopE < 0 || evPosWb[wr.idx] < win.stopE) {
+									cls = "udp-reorder-push-after-close"
+								}
+							}
+						}
 						add(cls, "reader %d m=%d f=%d: packet seq=%d (write %d) delivered after write %d (seq %d)", r, d.m, d.f, d.seq, wr.idx, lst[lp], hp.writes[lst[lp]].seq)
 						if !dup {
 							d.w = wr.idx
@@ -974,11 +1000,13 @@ type shadow struct {
 	wire    []int
 	pendAct bool
 	gone    bool
+	closing bool // the stop in progress is a Close of the client, not a PAUSE
+	rx      map[[2]int][2]int // UDP receiver per (m,f): last delivered write index, consecutive late arrivals
 }
 
 func (hp *hop) caseLine() string {
 	var l hx.L
-	l.N(1).I(hp.q).I(len(hp.medias))
+	l.N(1).I(hp.q).I(recvBufferSize).I(len(hp.medias))
 	for _, fs := range hp.medias {
 		l.I(len(fs))
 		for _, f := range fs {
@@ -999,7 +1027,7 @@ func (hp *hop) caseLine() string {
 	nR := len(hp.readers)
 	sh := make([]*shadow, nR)
 	for i := range sh {
-		sh[i] = &shadow{}
+		sh[i] = &shadow{rx: map[[2]int][2]int{}}
 	}
 	will := make([]map[int]bool, nR)
 	for r := range will {
@@ -1082,18 +1110,66 @@ func (hp *hop) caseLine() string {
 		s.w, s.queue, s.ring = 0, nil, nil
 	}
 	stopEmitted := map[int]bool{} // event positions of stop requests already emitted (moved before an overlapping write)
+	playEmitted := map[int]bool{} // same for PLAY requests
+	playReq := func(r int) {
+		s := sh[r]
+		ctl(cPlayReq, r)
+		ctl(cCreate, r)
+		s.ph, s.w, s.started, s.queue = 1, 1, false, nil
+		if !hp.readers[r].tcp {
+			// UDP: startWriter precedes readerSetActive; activating as early as possible is always
+			// explainable (what was not really pushed counts as lost datagrams)
+			ctl(cStart, r)
+			s.started = true
+			ctl(cActivate, r)
+			s.active = true
+			return
+		}
+		s.pendAct = true
+	}
+	// TCP: the reader becomes active at an instant the log does not show, between PLAY begin and PLAY end.
+	// actAt[r] = the write before which it must already be active: the first write (after PLAY began)
+	// that reached the reader or was refused by its queue - moved back by as many accepted writes as a
+	// queue-full report needs to have filled the queue.
+	actAt := make([]int, nR)
+	planActivation := func(r, from int) {
+		actAt[r] = -1
+		var ws []int
+		for p2 := from; p2 < len(hp.events); p2++ {
+			e2 := hp.events[p2]
+			if e2.kind == evPlayE && e2.r == r {
+				break
+			}
+			if e2.kind == evWb && hasM(r, hp.writes[e2.w].m) {
+				ws = append(ws, e2.w)
+			}
+		}
+		for j, wi := range ws {
+			if will[r][wi] {
+				actAt[r] = wi
+				return
+			}
+			if hp.writes[wi].hasFull(r) {
+				need := hp.q
+				k := j
+				for k > 0 && need > 0 {
+					k--
+					if !hp.writes[ws[k]].hasFull(r) {
+						need--
+					}
+				}
+				actAt[r] = ws[k]
+				return
+			}
+		}
+	}
 	for pos, e := range hp.events {
 		switch e.kind {
 		case evPlayB:
-			s := sh[e.r]
-			ctl(cPlayReq, e.r)
-			ctl(cCreate, e.r)
-			s.ph, s.w, s.started, s.queue = 1, 1, false, nil
-			if !hp.readers[e.r].tcp {
-				ctl(cStart, e.r)
-				s.started = true
+			if !playEmitted[pos] {
+				playReq(e.r)
+				planActivation(e.r, pos+1)
 			}
-			s.pendAct = true
 		case evPlayE:
 			s := sh[e.r]
 			if s.pendAct {
@@ -1107,6 +1183,7 @@ func (hp *hop) caseLine() string {
 			if !stopEmitted[pos] && (s.ph == 1 || s.ph == 2) {
 				ctl(cStopReq, e.r)
 				s.ph = 3
+				s.closing = e.kind == evCloseB
 			}
 		case evStopE:
 			s := sh[e.r]
@@ -1139,8 +1216,16 @@ func (hp *hop) caseLine() string {
 					if s2 := sh[e2.r]; s2.ph == 1 || s2.ph == 2 {
 						ctl(cStopReq, e2.r)
 						s2.ph = 3
+						s2.closing = e2.kind == evCloseB
 						stopEmitted[p2] = true
 					}
+				}
+				// likewise a PLAY that began while this write was in progress, if this very packet reached
+				// that reader (or was refused by its queue)
+				if e2.kind == evPlayB && !playEmitted[p2] && sh[e2.r].ph == 0 && (will[e2.r][w.idx] || w.hasFull(e2.r)) {
+					playReq(e2.r)
+					planActivation(e2.r, pos)
+					playEmitted[p2] = true
 				}
 			}
 			for r := 0; r < nR; r++ {
@@ -1148,7 +1233,7 @@ func (hp *hop) caseLine() string {
 				if !hasM(r, w.m) {
 					continue
 				}
-				if s.pendAct && (will[r][w.idx] || w.hasFull(r)) {
+				if s.pendAct && (will[r][w.idx] || w.hasFull(r) || (actAt[r] >= 0 && w.idx >= actAt[r])) {
 					ctl(cActivate, r)
 					s.pendAct, s.active = false, true
 				}
@@ -1163,7 +1248,7 @@ func (hp *hop) caseLine() string {
 				// Keep it open as long as the observations allow; close it (discarding the queue) when a
 				// packet that will be delivered meets queued packets that never are, or when room is
 				// needed and the queue head is a packet that is never delivered.
-				if s.w == 1 && tcp && s.ph == 3 {
+				if s.w == 1 && tcp && s.ph == 3 && !s.closing {
 					stale := false
 					for _, x := range s.queue {
 						if !will[r][x] {
@@ -1180,8 +1265,23 @@ func (hp *hop) caseLine() string {
 					// closed but not yet joined: Push only looks at the slot under the write index; the
 					// consumer may still run what lands under its read index
 					if s.ring[s.wp] >= 0 {
-						if s.rp == s.wp && s.started && will[r][s.ring[s.rp]] {
-							drainOne(r)
+						// the slot is taken and no queue-full was reported: the consumer must have run
+						// everything from its read position up to that slot - possible only if it is still
+						// alive and (over TCP) all of that is delivered later; otherwise the writer is gone
+						ok := s.started
+						n := len(s.ring)
+						for j := s.rp; ok; j = (j + 1) % n {
+							if s.ring[j] < 0 || (tcp && !will[r][s.ring[j]]) {
+								ok = false
+							}
+							if j == s.wp {
+								break
+							}
+						}
+						if ok {
+							for s.ring[s.wp] >= 0 {
+								drainOne(r)
+							}
 						} else {
 							nilW(r)
 							continue
@@ -1241,6 +1341,38 @@ func (hp *hop) caseLine() string {
 							break
 						}
 					}
+				}
+				if pos >= 0 && !hp.readers[r].tcp {
+					// the receiver hands an older packet on only after more than BufferSize late arrivals
+					// in a row: replay the late datagrams of that format that were dropped without callback
+					key := [2]int{d.m, d.f}
+					if st, ok := s.rx[key]; ok && d.w <= st[0] {
+						for st[1] < recvBufferSize {
+							cand := -1
+							for j, x := range s.wire {
+								wx := hp.writes[x]
+								if x != d.w && !will[r][x] && wx.m == d.m && wx.f == d.f && x <= st[0] {
+									cand = j
+									break
+								}
+							}
+							if cand < 0 {
+								break
+							}
+							l.N(3).I(r).I(cand).N(0)
+							s.wire = append(append([]int(nil), s.wire[:cand]...), s.wire[cand+1:]...)
+							st[1]++
+						}
+						s.rx[key] = st
+						pos = -1
+						for j, x := range s.wire {
+							if x == d.w {
+								pos = j
+								break
+							}
+						}
+					}
+					s.rx[key] = [2]int{d.w, 0}
 				}
 				if pos >= 0 {
 					if hp.readers[r].tcp {
@@ -1475,7 +1607,7 @@ func (sc *scenario) runRelay() *runResult {
 	hopA.log(event{kind: evCloseB, r: 0})
 	pub.Close()
 	hopA.log(event{kind: evCloseE, r: 0})
-	time.Sleep(50 * time.Millisecond)
+	waitDrain(hopA, 2*time.Second) // the server keeps handing on what it had buffered
 	close(errs)
 	for e := range errs {
 		res.notes = append(res.notes, e)
@@ -1650,6 +1782,7 @@ func main() {
 		panic(err)
 	}
 	tlsCert = cert
+	probeRecvBufferSize()
 
 	malformed(ctx)
 
